@@ -497,6 +497,11 @@ fn case(g: &mut Gen, ctx: &mut Ctx) -> CaseResult {
     if g.ratio(1, 40) {
         return supp_received_case(g, ctx);
     }
+    if g.ratio(1, 60) {
+        // the tagged encoding the crate provides to every implementor of its serialisation traits: a type
+        // of the harness' own with tag numbers of every head width (shared with C13)
+        return crate::props::c13::check_foreign_tags(g, ctx);
+    }
     if g.ratio(1, 12) {
         return claims_case(g, ctx);
     }
